@@ -3,7 +3,9 @@ Proof: coq/C13 (to_json/of_json over key-sorted maps, round trip, fixed point, i
 separation, parametric in the dumps / sha256 / repr oracles).  Tie: op sequences on the real metabook classes
 vs the extracted model, canonical JSON and collection ids recomputed from the model's output.
 Search: round-trip / fixed-point / id-invariance / id-separation / no-shared-defaults / independence-of-loaded-copies oracles on the
-real code; every hit is settled (re-run alone in a fresh process, delta-debugged) before it is reported."""
+real code, and the identifiers over the LIFE of one object: `probe` ops (calc_checksum / make_collection_id of the live
+object) interleaved with API calls and in-place edits of every kind at every depth (coq/C13/ModelEdit.v edit_at): the checksum
+is that of a fresh copy of the same content and changes exactly when dumps() changes; every hit is settled (re-run alone in a fresh process, delta-debugged) before it is reported."""
 import hashlib
 import json
 import os
@@ -707,7 +709,7 @@ def settle_hits(run, sink, src, defaults, cases, nshard):
                 if fams[f] and len(order) < 5:
                     order.append(fams[f].pop(0))
         for fp in order:
-            budget = [150]
+            budget = [100]
             got, pre, case = None, [], None
             for h in by_fp[fp][:3]:
                 case = {"ops": h["replay"]["case"]["ops"]}
@@ -828,12 +830,18 @@ def check(run):
                 "item removed), 3 parameter differences; 60% of the cases continue with `indep`: the same text is loaded twice more, 1-5 "
                 "mutations (append_article, setattr, items/wikis/licenses append, in-place edit of an item, pop, reverse) are applied to one "
                 "copy, then the other copy, a further load, its dumps and the collection id of the identical request are compared with what "
-                "they were. distinct = distinct op list; non-trivial = at least one article. Monitor hits are re-run alone in a fresh process "
+                "they were. 50% of the built and 35% of the hand-written metabooks go through a LIFE session: probe (calc_checksum, dumps, "
+                "collection id of the live object), then 1-4 rounds of 1-2 changes -- in-place edits addressed by an index path through "
+                ".items (depth 0-3, 15% arbitrary paths, modulo spellings): setattr, items.append/insert/pop/reverse, append to a list-valued "
+                "attribute (wikis, licenses, custom), assignment inside a dict/object held by an attribute; the same assignment repeated; "
+                "setattr / append_article on the Collection; reload -- each followed by a probe; at every probe the checksum must be that of "
+                "loads(dumps()) and between any two probes checksum and id change exactly when dumps() changes. distinct = distinct op list; non-trivial = at least one article. Monitor hits are re-run alone in a fresh process "
                 "and delta-debugged (ops, keyword arguments, mutation lists, request text) before they are reported")
     run.trusted = ["Coq 8.16.1 kernel (coqc); vm_compute in the class-table obligations and Examples",
                    "extraction (ExtrOcamlBasic only) + ocaml/c13/driver.ml + vt/harness/c13_codec.py",
                    "hand-written model of MetabookObject.__init__/_json, object_hook, append_article, walk, make_collection_id's pre-image "
-                   "(coq/C13/Model.v); tie = differential run",
+                   "(coq/C13/Model.v) and of in-place edits through index paths (coq/C13/ModelEdit.v = vt/harness/c13_impl.py "
+                   "nav/apply_edit); tie = differential run",
                    "vt/gen/c13_classes.py (class defaults and object_hook mapping regenerated from metabook.py / myjson.py)",
                    "oracles (Section hypotheses): json text codec = simplejson dumps(sort_keys)/loads (dumps injective on key-sorted values), "
                    "sha256 hex digest (only its length is used), repr of None/str is prefix-free",
